@@ -49,7 +49,12 @@ B2 == <<Ty(Q(0), <<Sa>>, <<>>, [tag |-> "variant", variants |-> <<Var(Sa, <<>>, 
 B3 == <<Ty(Q(0), <<>>, <<>>, [tag |-> "bitsequence", store |-> Q(1), order |-> Q(2)], <<>>),
         Ty(Q(1), <<>>, <<>>, [tag |-> "compact", ty |-> Q(2)], <<>>),
         Ty(Q(2), <<>>, <<>>, [tag |-> "sequence", ty |-> Q(0)], <<>>)>>
-Bases == <<B1, B2, B3>>
+\* strings that are special to someone's validation (bare raw prefix, empty, raw identifier, leading digit, keyword)
+Sr == <<114, 35>>  Srt == <<114, 35, 116, 121, 112, 101>>  S9 == <<57, 120>>  Skw == <<115, 101, 108, 102>>
+B4 == <<Ty(Q(0), <<Sr, S0, Srt, S9, Skw>>, <<Prm(Sr, <<Q(1)>>), Prm(S0, <<>>)>>,
+           [tag |-> "composite", fields |-> <<Fld(<<Sr>>, Q(1), <<Sr>>, <<Sr, S0>>), Fld(<<S0>>, Q(1), <<S9>>, <<>>)>>], <<Sr>>),
+        Ty(Q(1), <<S0>>, <<>>, [tag |-> "variant", variants |-> <<Var(Sr, <<>>, 0, <<Sr>>), Var(S0, <<Fld(<<Skw>>, Q(0), <<>>, <<>>)>>, 1, <<>>)>>], <<>>)>>
+Bases == <<B1, B2, B3, B4>>
 
 RECURSIVE PathsOf(_)
 PathsOf(j) == {<<>>} \cup (IF j.t \in {"o", "a"} THEN UNION {{<<i>> \o p : p \in PathsOf(j.v[i])} : i \in 1..Len(j.v)} ELSE {})
